@@ -38,6 +38,11 @@ class Gen:
         self.prefixes = rng.sample(PREFIXES, min(nprefix, len(PREFIXES)))
         self.names = rng.sample(NAMES, min(nname, len(NAMES)))
         self.dts = rng.sample(DATATYPES, min(ndt, len(DATATYPES)))
+        # the spelling of language tags in THIS data set: as listed, all upper case or all lower case -- one spelling per data set
+        # (rdflib's Literal == ignores the case of the tag: two spellings of one tag next to each other are one term for it), another
+        # in the next one (what a process remembers about a literal of an earlier stream must not show in a later one).  Derived
+        # from what was drawn already: the sequence of random draws is the one it was
+        self.tag_style = {0: str.upper, 1: str.lower}.get((len(self.prefixes) * 7 + len(self.names) * 3 + len(self.dts)) % 6, str)
 
     def iri(self) -> gs.IRI:
         r = self.r
@@ -56,7 +61,7 @@ class Gen:
         if k < 0.35:
             return gs.Literal(lex)
         if k < 0.6:
-            return gs.Literal(lex, langtag=r.choice(LANGS))
+            return gs.Literal(lex, langtag=self.tag_style(r.choice(LANGS)))
         if typed:
             return gs.Literal(lex, datatype=r.choice(self.dts))
         return gs.Literal(lex)
